@@ -391,18 +391,25 @@ theorem include_inline (cv : Conv) (tbl : Table) (recog : Bytes → Bool)
   OpmVerif.Deck.include_inline cv tbl recog files hnoendinc htbl n al' deck' P hP path content hfile hq hsafe hnl R r h
 
 /-- **`relayout_deck`** (partial) — `RelayoutDeck` is the closure (reflexive, symmetric,
-transitive, in any context) of the deck-level rewrites: a line replaced by one with the same
-cleaned content (comments, outer blanks/tabs, blank ↔ comment-only line; anywhere), a blank or
-comment line inserted at a keyword boundary, the keyword line in another case / with text
-behind the name, a run of whole keywords moved into an INCLUDE file.  Every derivation leaves
-what `Parser::parseString` returns unchanged: the same Deck, or no Deck on either side.
+transitive, in any context) of the deck-level rewrites:
+`line`   a line replaced by one with the same cleaned content (comments, outer blanks/tabs,
+         blank ↔ comment-only line; anywhere, also inside records);
+`blank`  a blank or comment line inserted at a keyword boundary;
+`kwname` the keyword line in another case / with text behind the name;
+`record` inside a keyword (any size class, behind any number of earlier records) the text of
+         one record replaced by any other text that is one record whose tokens parse to the
+         same items under the schema of that position: separator runs, text after the slash
+         (`oneRec_line`), line breaks at safe points (`oneRec_linebreak`, the writer's split
+         `oneRec_written`), star contraction/expansion and early record end (the token-level
+         equivalence comes from `relayout_compose` / `scan_star_expand` /
+         `scan_trailing_default`); the keyword assembly behind the record is unaffected
+         (bisimulation `feedLines_setRecs`);
+`incl`   a run of whole keywords moved into an INCLUDE file.
+Every derivation leaves what `Parser::parseString` returns unchanged: the same Deck, or no
+Deck on either side.
 
-Full shape, not proved here: the same closure with the record-internal rules (separator runs
-and line breaks between items, text after the slash, star contraction/expansion, early
-record end) at any place of a deck.  Those are proved for one record in every composition
-(`relayout_compose`), and for the line loop of a keyword (`assemble_linebreak`,
-`blank_line_inside_keyword`, `after_slash_ignored`); lifting them needs a bisimulation
-between raw keywords that differ in the spelling of one record. -/
+Full shape, not proved: rule `record` for double-record keywords and for the line of TITLE
+(and SKIP blocks inside records are not in the model). -/
 theorem relayout_deck_partial (cv : Conv) (tbl : Table) (recog : Bytes → Bool)
     (files : List (Bytes × Bytes) → Bytes → Option Bytes) {t u : Bytes}
     (h : RelayoutDeck cv tbl recog files t u) (r : DeckT) :
@@ -502,6 +509,56 @@ example : parseDeckText demoConv demoTable (fun _ => false) incFiles 20 (b "OIL\
       (b "OIL -- first\n  \t\noil  again\nINCLUDE\n '/d/oil.inc' /\n") ∧
     (parseDeckText demoConv demoTable (fun _ => false) incFiles 20 (b "OIL\nOIL\nOIL\n")).map (·.map (·.name)) =
       some [b "OIL", b "OIL", b "OIL"] := by decide +kernel
+
+/-- rule `record`: `DIMENS` behind `OIL`, its record written with a repeat count and text after
+the slash, or written out with commas and a tab and the slash right behind the last item. -/
+example : RelayoutDeck demoConv demoTable (fun _ => false) incFiles
+    (b "OIL\nDIMENS\n 2*10 3 / text\nOIL\n") (b "OIL\nDIMENS\n 10,10\t3/\nOIL\n") := by
+  have hB1 : AtBoundary demoConv demoTable (fun _ => false) incFiles 1 [] [] (b "OIL\n") [] [⟨b "OIL", []⟩] := by
+    have := atBoundary_written demoConv demoTable (fun _ => false) incFiles idFmt true [] [] [oilKw] (oil_conforms [])
+    have e : deckText idFmt true [oilKw] = b "OIL\n" := by decide +kernel
+    rw [e] at this
+    exact this
+  let k0 : Kw := { sizeType := .fixed, raw := false, records := [], minSize := 1, fixedSize := 1,
+                   numTables := 0, curTables := 0, tempFinished := false, finished := false }
+  have hX : OneRec (fun _ => false) k0 (linesOf (b " 2*10 3 / text\n")) [b "2*10", b "3"] := by
+    have e : linesOf (b " 2*10 3 / text\n") = [b "2*10 3 " ++ 47 :: b " text"] := by decide +kernel
+    rw [e]
+    exact oneRec_line (fun _ => false) k0 rfl (b "2*10 3 ") (b " text") _ (by decide +kernel) (by decide +kernel)
+      (by decide +kernel) (by decide +kernel) (by simp)
+  have hX' : OneRec (fun _ => false) k0 (linesOf (b " 10,10\t3/\n")) [b "10", b "10", b "3"] := by
+    have e : linesOf (b " 10,10\t3/\n") = [b "10,10\t3" ++ 47 :: []] := by decide +kernel
+    rw [e]
+    exact oneRec_line (fun _ => false) k0 rfl (b "10,10\t3") [] _ (by decide +kernel) (by decide +kernel)
+      (by decide +kernel) (by decide +kernel) (by simp)
+  have h := RelayoutDeck.record (cv := demoConv) (tbl := demoTable) (recog := fun _ => false) (files := incFiles)
+    1 [] [⟨b "OIL", []⟩] (b "OIL\n") (b "DIMENS") [] (b " 2*10 3 / text\n") (b " 10,10\t3/\n") (b "OIL\n")
+    (b "DIMENS") ⟨.fixed 1, false, none, [[⟨.int, false, none⟩, ⟨.int, false, none⟩, ⟨.int, false, none⟩]], false, false⟩
+    k0 k0 [b "2*10", b "3"] [b "10", b "10", b "3"]
+    hB1 (by decide +kernel) (by decide +kernel) (by decide +kernel) (by decide +kernel) (by decide +kernel)
+    (by decide +kernel) (by decide +kernel) (by decide +kernel) rfl (by decide +kernel) (by decide +kernel) rfl
+    (Or.inl rfl) (by decide +kernel) (by decide +kernel) (by intro rest; rfl) hX hX' (by decide)
+    (by
+      intro items hi
+      have : items = [⟨.int, false, none⟩, ⟨.int, false, none⟩, ⟨.int, false, none⟩] := by
+        have h2 : schemaOf [[(⟨.int, false, none⟩ : Item), ⟨.int, false, none⟩, ⟨.int, false, none⟩]] false 0 =
+            some [⟨.int, false, none⟩, ⟨.int, false, none⟩, ⟨.int, false, none⟩] := by decide +kernel
+        have h3 : (k0.records.length) = 0 := rfl
+        rw [h3, h2] at hi
+        exact (Option.some.inj hi).symm
+      rw [this]
+      decide +kernel)
+  have e1 : b "OIL\nDIMENS\n 2*10 3 / text\nOIL\n" = b "OIL\n" ++ (b "DIMENS" ++ 10 :: ([] ++ (b " 2*10 3 / text\n" ++ b "OIL\n"))) := by
+    decide +kernel
+  have e2 : b "OIL\nDIMENS\n 10,10\t3/\nOIL\n" = b "OIL\n" ++ (b "DIMENS" ++ 10 :: ([] ++ (b " 10,10\t3/\n" ++ b "OIL\n"))) := by
+    decide +kernel
+  rw [e1, e2]
+  exact h
+
+example : parseDeckText demoConv demoTable (fun _ => false) incFiles 20 (b "OIL\nDIMENS\n 2*10 3 / text\nOIL\n") =
+    parseDeckText demoConv demoTable (fun _ => false) incFiles 20 (b "OIL\nDIMENS\n 10,10\t3/\nOIL\n") ∧
+    (parseDeckText demoConv demoTable (fun _ => false) incFiles 20 (b "OIL\nDIMENS\n 2*10 3 / text\nOIL\n")).isSome = true := by
+  decide +kernel
 
 /-- a record that runs past the end of an included file: an error with the INCLUDE (the C++
 throws "Input file ended inside a record." since d37f2f297), a deck with the content in place. -/
